@@ -105,6 +105,31 @@ func (s *Service) create(ctx context.Context, tx gorp.Tx, _channels *[]Channel, 
 		}
 	}
 
+	if *s.cfg.ValidateNames && !s.cfg.HostResolver.HostKey().IsBootstrapper() {
+		// The bootstrapper derives the indexes of the calculated channels in this request,
+		// but the other channels of the request are routed elsewhere and never meet the
+		// derived names there: a request that also names one of them (calculated c next
+		// to an index called c_time) has to be refused here, before anything is routed.
+		names := Names(channels)
+		for _, ch := range channels {
+			if ch.IsCalculated() && ch.LocalKey == 0 {
+				names = append(names, ch.Name+calculatedIndexNameSuffix)
+			}
+		}
+		if len(names) > len(channels) {
+			keys := append(KeysFromChannels(channels), make(Keys, len(names)-len(channels))...)
+			if err := s.validateChannelNames(
+				ctx,
+				tx,
+				keys,
+				names,
+				opts.RetrieveIfNameExists || opts.OverwriteIfNameExistsAndDifferentProperties,
+			); err != nil {
+				return err
+			}
+		}
+	}
+
 	// Append index channels to be created alongside calculated channels
 	channels = append(channels, indexChannels...)
 	if *s.cfg.ValidateNames && len(indexChannels) > 0 {
